@@ -11,7 +11,7 @@ tu_text = '''#include "opentelemetry/trace/propagation/http_trace_context.h"
 '''
 spec_headers = ("spec_hex.h", "xc_trace_boundary.h")
 force_records = ("nostd::string_view", "trace::SpanContext")
-post_struct_c = common.TRACE_BOUNDARY_C + "\nSpanContext g_extracted;\n"
+post_struct_c = common.trace_boundary_c(["traceparent", "tracestate"]) + "\nSpanContext g_extracted;\n"
 pre_c = '''
 size_t g_k; size_t g_j; size_t g_off; size_t g_off2; size_t g_trim_off; size_t g_trim_len;
 static void xc_havoc_ghosts(void) { size_t a, b, c, d; g_k = a; g_j = b; g_off = c; g_off2 = d; }
@@ -132,8 +132,7 @@ contracts.update({
     "HttpTraceContext_ExtractImpl": {
         "ghost": {("after_decl", "trace_parent"): "g_trim_off = POFF(trace_parent.data_); g_trim_len = trace_parent.length_;"},
         "pre": "__CPROVER_requires(g_get_calls == 0 && g_get_ret[0].length_ <= XC_MAXLEN && __CPROVER_is_fresh(g_get_ret[0].data_, g_get_ret[0].length_))\n"
-        "__CPROVER_assigns(g_get_calls, __CPROVER_object_whole(g_get_key), __CPROVER_object_whole(g_get_key_len), g_trim_off, g_trim_len, g_ts_from_header_calls, g_ts_header_data, g_ts_header_len)\n"
-        "__CPROVER_ensures(g_get_calls == 2 && " + common.key_lit_eq("g_get_key", "0", "traceparent") + " && " + common.key_lit_eq("g_get_key", "1", "tracestate") + ")\n"
+        "__CPROVER_assigns(g_get_calls, __CPROVER_object_whole(g_get_seen), g_trim_off, g_trim_len, g_ts_from_header_calls, g_ts_header_data, g_ts_header_len)\n"
         # the trimmed window lies inside the header and only whitespace was removed
         "__CPROVER_ensures(g_trim_off <= g_get_ret[0].length_ && g_trim_len <= g_get_ret[0].length_ - g_trim_off)\n"
         "__CPROVER_ensures((g_k < g_trim_off || (g_trim_off + g_trim_len <= g_k && g_k < g_get_ret[0].length_)) ==> XC_ISSPACE(g_get_ret[0].data_[g_k]))\n" +
@@ -144,7 +143,7 @@ contracts.update({
         "ghost": {("after_decl", "span_context"): "g_extracted = span_context;"},
         "pre": "__CPROVER_requires(g_get_calls == 0 && g_get_ret[0].length_ <= XC_MAXLEN && __CPROVER_is_fresh(g_get_ret[0].data_, g_get_ret[0].length_))\n"
         "__CPROVER_requires(__CPROVER_is_fresh(context, sizeof(xc_ctx)) && g_setspan_calls == 0 && g_new_span_calls == 0)\n"
-        "__CPROVER_assigns(g_get_calls, __CPROVER_object_whole(g_get_key), __CPROVER_object_whole(g_get_key_len), g_trim_off, g_trim_len, g_ts_from_header_calls, g_ts_header_data, g_ts_header_len, "
+        "__CPROVER_assigns(g_get_calls, __CPROVER_object_whole(g_get_seen), g_trim_off, g_trim_len, g_ts_from_header_calls, g_ts_header_data, g_ts_header_len, "
         "g_extracted, g_new_span_context, g_new_span_calls, g_setspan_calls, g_setspan_ctx_id, g_setspan_span_id)\n"
         # an invalid context is never installed: the caller's context comes back and SetSpan is not called
         "__CPROVER_ensures(!SC_VALID(g_extracted) ==> (g_setspan_calls == 0 && __CPROVER_return_value.id == context->id))\n"
